@@ -57,6 +57,7 @@ type KernelResult struct {
 	Disch      int                `json:"discharged"`
 	NonTriv    int                `json:"covers_satisfied"`
 	FaultKinds []string           `json:"fault_kinds_checked,omitempty"`
+	RaceSites  []string           `json:"unordered_access_sites,omitempty"`
 }
 
 type KernelCex struct {
@@ -163,6 +164,10 @@ func RunKernel(spec *KernelSpec, solver string, timeoutMs int) (res *KernelResul
 		res.FaultKinds = append(res.FaultKinds, f)
 	}
 	sort.Strings(res.FaultKinds)
+	for f := range k.E.RaceSites {
+		res.RaceSites = append(res.RaceSites, f)
+	}
+	sort.Strings(res.RaceSites)
 	sv, err := NewSolver(k.E.B, solver, timeoutMs)
 	if err != nil {
 		res.Error = err.Error()
@@ -221,6 +226,9 @@ func RunKernel(spec *KernelSpec, solver string, timeoutMs int) (res *KernelResul
 	obs = append(obs, ob{"harness runs to completion on some input (reachability)", k.Completed(), true})
 	obs = append(obs, ob{"unwinding / pool bounds", k.FlagTerm("unwind"), false})
 	obs = append(obs, ob{"no runtime fault (nil dereference, index out of range, failed type assertion)", k.FlagTerm("fault"), false})
+	if k.E.Plumb != nil && spec.Prop == "C12" {
+		obs = append(obs, ob{"generated plumbing relies only on the scheduler's happens-before guarantees (job-written cells read by dependents, or by the caller after a nil Wait; otherwise atomically)", k.FlagTerm("C12gen"), false})
+	}
 	for _, n := range k.FlagNames("assert:") {
 		var id int
 		fmt.Sscanf(n, "assert:%d", &id)
